@@ -1200,6 +1200,7 @@ type modSet struct {
 	ptrs     map[string]types.Type
 	allHeaps bool
 	calls    bool
+	rawKeys  map[string]bool // heap keys an impure callee may write (reachable from its signature)
 }
 
 func (c *FnCtx) modified(nodes ...ast.Node) *modSet {
@@ -1338,6 +1339,9 @@ func (c *FnCtx) havocForLoop(st *State, ms *modSet) {
 			heapSorts[pk+path] = sort
 			return ""
 		})
+	}
+	for k := range ms.rawKeys {
+		keys[k] = true
 	}
 	if ms.calls {
 		// calls inside the loop may have produced new heap versions for any heap already
@@ -1829,6 +1833,30 @@ func (c *FnCtx) callIsPure(call *ast.CallExpr, ms *modSet, depth int) bool {
 		}
 		return false
 	}
+	pure := c.callIsPure1(call, fn, ms, depth)
+	if !pure {
+		// the call may write any heap reachable from its signature: the loop head must havoc them
+		// even when no call has touched them before the loop
+		if sig, ok := fn.Type().(*types.Signature); ok {
+			if ms.rawKeys == nil {
+				ms.rawKeys = map[string]bool{}
+			}
+			seen := map[string]bool{}
+			keys := map[string]string{}
+			c.heapKeysOf(sig.Params(), seen, keys)
+			c.heapKeysOf(sig.Results(), seen, keys)
+			if sig.Recv() != nil {
+				c.heapKeysOf(sig.Recv().Type(), seen, keys)
+			}
+			for k := range keys {
+				ms.rawKeys[k] = true
+			}
+		}
+	}
+	return pure
+}
+
+func (c *FnCtx) callIsPure1(call *ast.CallExpr, fn *types.Func, ms *modSet, depth int) bool {
 	key := c.funcKey(fn)
 	if fs, ok := c.eng.contracts.Funcs[key]; ok {
 		if fs.Assigns == "nothing" {
@@ -1871,6 +1899,12 @@ func (c *FnCtx) callIsPure(call *ast.CallExpr, ms *modSet, depth int) bool {
 		}
 		for k, v := range sub.ptrs {
 			ms.ptrs[k] = v
+		}
+		for k := range sub.rawKeys {
+			if ms.rawKeys == nil {
+				ms.rawKeys = map[string]bool{}
+			}
+			ms.rawKeys[k] = true
 		}
 		return !sub.calls
 	}
